@@ -178,7 +178,7 @@ func propC01(w *World, r *Report) {
 func checkMarkOnlyAfterStop(w *World, r *Report, run *tsRun, rule string) {
 	evs := eventsOfKind(run, "ring:SetAsOldest", -1)
 	for _, ev := range evs {
-		okc, bad, _, n := allCtx([]*Event{ev}, func(cx *Ctx) bool { return cx.Ghosts["stop:motion"] >= 1 })
+		okc, bad, _, n := allCtx([]*Event{ev}, func(cx *Ctx) bool { return cx.Ghosts["stop:motion"] >= 1 || cx.Sinks[roleMotion] == 1 })
 		construct := "SetAsOldest at " + callOrdinal(ev.Instr, "SetAsOldest") + " only right after an open motion recording was stopped"
 		if okc {
 			r.Pass(rule, construct, w.InstrPos(ev.Instr), fmt.Sprintf("%d contexts", n))
@@ -335,6 +335,7 @@ func propC02(w *World, r *Report) {
 	} else {
 		r.Check(n > 0, "P3", "successful start => history + trigger frame written in the same call", "-", fmt.Sprintf("%d exit contexts with a successful start", n))
 	}
+	checkSettingsImmutable(w, r, "P1", "RecorderConfig", "ThermalRecorder", "Config") // preview-secs reaches the processor as configured
 }
 
 // ---------------------------------------------------------------------------------------
@@ -361,9 +362,9 @@ func propC03(w *World, r *Report) {
 	MAX := tmul(tleaf(leafFPS), tleaf(leafMaxSecs))
 	ext := tminmax("min", tadd(tleaf(W), MIN), MAX).String()
 	allowed := map[string]string{
-		"0":                             "reset at stop",
-		ext:                             "extension: min(written + MinSecs*FPS, MaxSecs*FPS)",
-		MIN.String():                    "initial target MinSecs*FPS",
+		"0":                               "reset at stop",
+		ext:                               "extension: min(written + MinSecs*FPS, MaxSecs*FPS)",
+		MIN.String():                      "initial target MinSecs*FPS",
 		tminmax("min", MIN, MAX).String(): "initial target min(MinSecs*FPS, MaxSecs*FPS)",
 	}
 	seenExt, seenInit := false, false
@@ -433,6 +434,28 @@ func propC03(w *World, r *Report) {
 	} else {
 		r.Check(n2 > 0, "L2", "every successful start sets the target", "-", fmt.Sprintf("%d exit contexts", n2))
 	}
+	// L6: every recording starts counting from zero: at every start of the motion sink - whatever start/write/stop
+	// failures came before - the written counter is 0 (a stale count would end the next recording early)
+	{
+		starts := eventsOfKind(runs.fault, "sink:StartRecording", roleMotion)
+		key := "nz:" + roles.Written
+		tracked := false
+		for fi := range runs.fault.C.Counter {
+			if runs.fault.C.fieldName(fi) == roles.Written {
+				tracked = true
+			}
+		}
+		if !tracked {
+			r.Fail("L6", "written counter is zero at every start of a recording", "-", "the written counter "+roles.Written+" is never reset to the constant 0: a recording would inherit the previous recording's count", "")
+		} else {
+			okc, bad, ev, n := allCtx(starts, func(cx *Ctx) bool { return cx.Pers[key] == 0 })
+			if okc {
+				r.Check(n > 0, "L6", "written counter is zero at every start of a recording", "-", fmt.Sprintf("%d start contexts over all failure placements", n))
+			} else {
+				r.Fail("L6", "written counter is zero at every start of a recording", w.InstrPos(ev.Instr), "a recording can start while "+roles.Written+" still holds the count of an earlier recording (it would stop before min-secs): "+describeCtx(bad), bad.Trace)
+			}
+		}
+	}
 	// L3
 	if roles.StopLabel == "" {
 		r.Fail("L3", "stop guard", "-", "no comparison between the written counter and the stop target was found", "")
@@ -492,6 +515,7 @@ func propC03(w *World, r *Report) {
 		}
 	}
 	checkRecorderConfigValidation(w, r, e)
+	checkSettingsImmutable(w, r, "L1", "RecorderConfig", "ThermalRecorder", "Config") // min-secs / max-secs reach the processor as configured
 }
 
 func storeOrdinal(st *ssa.Store) string {
@@ -713,7 +737,9 @@ func propC04(w *World, r *Report) {
 			if has && d == 0 {
 				return true
 			}
-			return cx.Ghosts["stop:motion"] >= 1
+			// while a recording is open the counter is not consulted, and the stop zeroes it anyway: zeroing it just
+			// before the stop call is the same as just after it
+			return cx.Ghosts["stop:motion"] >= 1 || cx.Sinks[roleMotion] == 1
 		})
 		construct := "counter zeroed only on a motionless frame or after a real stop: " + ev.Instr.Parent().Name()
 		if okc {
@@ -753,10 +779,18 @@ func propC04(w *World, r *Report) {
 			r.Unknown("S7", "recorder.NewConfig", "-", "not found")
 		}
 	}
+	checkSettingsImmutable(w, r, "S7", "RecorderConfig", "ThermalRecorder", "Windows", "Location", "Config") // window and min-disk-space as configured
 }
 
 // S5 / S6
 func checkDiskGate(w *World, r *Report) {
+	// S6 (start through the throttler): a refused start must reach the processor, or the throttler would open the file
+	// later on a frame that passed none of the four start conditions
+	if tr, err := getThrottleRuns(w); err == nil {
+		checkThrottleStartFailureSurfaces(w, r, tr, "S6")
+	} else {
+		r.Unknown("S6", "throttle start failure", "-", err.Error())
+	}
 	e := newTermEnv(w)
 	rec := recorderIface(w)
 	// S6: wrappers forward CheckCanRecord
